@@ -1,9 +1,11 @@
 SPECIFICATION Spec
 CONSTANTS
+  UseStaticCfg = TRUE
+  StaticCfg <- DefaultCfg
   Dev = {"RefundTruncatedDust"}
   Family = "econ"
   MaxLen = 40
-  Amts = {10, 101, 7}
+  Amts = {10, 101, 7, 5000}
   Fees = {0, 3, 1}
   Users = {"a1", "a2"}
   SendChains = {"ethereum", "minter"}
